@@ -48,7 +48,7 @@ pub fn self_check(e: &Expr, x: &[f64], jet: &Jet, second: bool) -> Option<String
             for k in 0..x.len() {
                 // (+ truncation: at a point where the second derivative vanishes but the third does not
                 // - a cube at an exactly-zero base - the difference quotient is off by about h x f''')
-                let tol = 2e-3 * (jet.hmag[i][k] + 1e-3) + 1e-13 * jet.gmag[k] / h + 1e2 * h * (jet.hl[i][k] + jet.gl[i] + jet.gl[k]);
+                let tol = 2e-3 * (jet.hmag[i][k] + 1e-3) + 1e-13 * jet.gmag[k] / h + 1e2 * h * (jet.hl[i][k] + jet.gl[i] + jet.gl[k]) + 10.0 * h * (1.0 + jet.gmag[i] + jet.gmag[k]);
                 if !((hm[i][k] - jet.h[i][k]).abs() <= tol) {
                     return Some(format!("reference hessian[{}][{}] = {:e}, finite difference {:e} (tolerance {:e})", i, k, jet.h[i][k], hm[i][k], tol));
                 }
